@@ -391,7 +391,13 @@ class Prop:
             k = rng.randint(0, 12)
             names = [rng.choice(g) for _ in range(k)]          # duplicates on purpose: stability
             items = [[nm, j] for j, nm in enumerate(names)]
-            if i % 2:
+            if i % 3 == 2:
+                # a case-folding flavour: ASCII names only (str.lower() of other letters needs the Unicode database)
+                pool = ["B", "a", "A", "b", "Z", "z", "_x", "X_", "10", "9", "aB", "Ab", "ab", "a.T", "a.t", "[", "^", "`", "{"]
+                names = [rng.choice(pool) for _ in range(k)]
+                yield dict(kind="pathsort_win", parent=rng.choice(["C:/Tmp/X", "C:/", "rel/Dir", "//srv/share/d"]),
+                           items=[[nm, j] for j, nm in enumerate(names)])
+            elif i % 3 == 1:
                 yield dict(kind="sort", items=items)
             else:
                 yield dict(kind="pathsort", parent=rng.choice(["/tmp/x", "/", "rel/dir", "/a/B/\u00e4"]), items=items)
@@ -421,7 +427,7 @@ class Prop:
             return self.run_load(desc)
         if k == "entry":
             return self.run_entry(desc)
-        if k in ("sort", "pathsort"):
+        if k in ("sort", "pathsort", "pathsort_win"):
             return self.run_sort(desc)
         if k == "repr":
             return self.run_repr(desc)
@@ -490,6 +496,15 @@ class Prop:
             objs = [FileSystemEntry(nm, size=tag, mdate=0) for nm, tag in items]
             res = [[o.name, o.size] for o in sorted(objs, key=attrgetter("name"))]
             coq = f"(CSort {H.coq_list(f'({H.coq_text(nm)}, {H.z(tag)})' for nm, tag in items)})"
+        elif desc["kind"] == "pathsort_win":
+            from pathlib import PureWindowsPath
+
+            parent = PureWindowsPath(desc["parent"])
+            pairs = [(parent / nm, tag) for nm, tag in items]
+            res = [[c.name, tag] for c, tag in sorted(pairs, key=itemgetter(0))]
+            comps = str(parent / "x").split("\\")[:-1]
+            coq = (f"(CPathSortW {H.coq_list(H.coq_text(c) for c in comps)} "
+                   f"{H.coq_list(f'({H.coq_text(nm)}, {H.z(tag)})' for nm, tag in items)})")
         else:
             parent = PurePosixPath(desc["parent"])
             pairs = [(parent / nm, tag) for nm, tag in items]
@@ -500,6 +515,11 @@ class Prop:
         fail = None
         if sorted(map(tuple, res), key=lambda x: x[1]) != [tuple(x) for x in items]:
             fail = f"sort: not a permutation: {res!r}"
+        elif desc["kind"] == "pathsort_win":
+            # statement for the case-folding flavour: ordered by the ASCII-lower-cased name, stable
+            low = lambda t: [c + 32 if 65 <= c <= 90 else c for c in cps(t)]  # noqa: E731
+            if any(low(a[0]) > low(b[0]) or (low(a[0]) == low(b[0]) and a[1] > b[1]) for a, b in zip(res, res[1:])):
+                fail = f"sort: PureWindowsPath order is not the order of the lower-cased names: {res!r}"
         elif any(cps(a[0]) > cps(b[0]) or (a[0] == b[0] and a[1] > b[1]) for a, b in zip(res, res[1:])):
             fail = f"sort: not sorted by code points / not stable: {res!r}"
         return Case(desc=desc, coq_input=coq, impl_obs=res, oracle_fail=fail, nontrivial=len(items) >= 2,
